@@ -156,7 +156,7 @@ func stagePaths(w *gal.Writer, r *gal.Rand) {
 		case 1:
 			urls = append(urls, url.URL{Path: hp})
 		case 2:
-			urls = append(urls, url.URL{Scheme: "https", Host: "h.example", Path: "/" + hp, Fragment: "f/../..", RawQuery: "a=/../.."})
+			urls = append(urls, url.URL{Scheme: "https", Host: "h.example", Path: "/" + hp, Fragment: "f/../../../../../../../../..", RawQuery: "a=/../.."})
 		default:
 			if !strings.HasPrefix(hp, "/") {
 				hp = "/" + hp
@@ -228,7 +228,7 @@ func stagePaths(w *gal.Writer, r *gal.Rand) {
 
 	// ---- key files ---------------------------------------------------------------
 	keyTails := []string{"/keys/k.rsa.pub", "/a/b/..", "/..", "/", "", "/a/", "/a/.", "/%2e%2e", "/a%2F..%2F..%2Fx", "/k?x=/../../y", "/k#/../../z", "/a/../../../../k.pub",
-		"/..%2f..%2fetc%2fpasswd", "/k.rsa.pub/", "/...", "/a b", "//", "/a//b"}
+		"/..%2f..%2fetc%2fpasswd", "/k.rsa.pub/", "/...", "/a b", "//", "/a//b", "/../../../../../k.pub", "/../../../../../../../../c18-key-escape"}
 	for i := 0; i < scale(40, 400); i++ {
 		hp := hostilePath(r)
 		if strings.ContainsAny(hp, "\x00 ") {
@@ -266,7 +266,11 @@ func stagePaths(w *gal.Writer, r *gal.Rand) {
 			}
 			rr := gal.NewRand(*seed*7919 + uint64(i))
 			script := buildTree(f, rr)
+			dumpUnreliable = false
 			tree := dumpTree(f, "")
+			if dumpUnreliable {
+				continue
+			}
 			for j := 0; j < 6; j++ {
 				p := lookupPath(rr)
 				kind := lstatKind(f, p)
@@ -474,8 +478,13 @@ func lstatKind(f apkfs.FullFS, p string) (kind string) {
 	}
 }
 
-// dumpTree prints the real tree as a Corr.C18.tnode, descending through real
-// directories only (ReadDir + Lstat + Readlink of the filesystem under test).
+// dumpTree prints the real tree as a Corr.C18.tnode from ReadDir's own entries
+// (their mode says link / directory / file without another lookup). A link's
+// target needs Readlink(path), which cleans the path first: below a directory
+// literally named ".." it would read a different entry, so such a tree is
+// reported as unreliable and its cases are dropped.
+var dumpUnreliable bool
+
 func dumpTree(f apkfs.FullFS, p string) string {
 	name := p
 	if name == "" {
@@ -483,24 +492,24 @@ func dumpTree(f apkfs.FullFS, p string) string {
 	}
 	des, err := f.ReadDir(name)
 	if err != nil {
+		dumpUnreliable = true
 		return "(TDir [])"
 	}
 	var items []string
 	for _, de := range des {
 		child := p + "/" + de.Name()
-		// Readlink inspects the parent's entry itself; Lstat (getNode) would
-		// already have followed a link in the last position
-		if target, err := f.Readlink(child); err == nil {
-			items = append(items, gal.Pair(gal.Str(de.Name()), "(TLink "+gal.Str(target)+")"))
-			continue
-		}
-		fi, err := f.Lstat(child)
-		if err != nil {
-			continue
-		}
 		var t string
 		switch {
-		case fi.IsDir():
+		case de.Type()&fs.ModeSymlink != 0:
+			if strings.Contains(child+"/", "/../") || strings.Contains(child+"/", "/./") {
+				dumpUnreliable = true
+			}
+			target, err := f.Readlink(child)
+			if err != nil {
+				dumpUnreliable = true
+			}
+			t = "(TLink " + gal.Str(target) + ")"
+		case de.IsDir():
 			t = dumpTree(f, child)
 		default:
 			t = "TFile"
